@@ -38,6 +38,7 @@ fn run() -> io::Result<()> {
 }
 
 fn main() {
+    #[cfg(feature = "verif")] asca::verif::budget_from_env();
     if let Err(e) = run() {
         eprintln!("{e}");
         process::exit(1);
